@@ -153,7 +153,27 @@ def shared_codes():
                         if ins.opname in ('LOAD_GLOBAL', 'STORE_GLOBAL', 'DELETE_GLOBAL') \
                                 and ins.argval in shared:
                             out.setdefault(co, set()).add(ins.argval)
+    for co in out:
+        WRITE_LINES[co] = write_lines(co)
     return out, sorted(shared)
+
+
+WRITE_LINES = {}     # code -> source lines that (may) mutate state: stores, deletes, mutating method calls
+_MUTATORS = {'pop', 'append', 'clear', 'register', 'setdefault', 'update', 'insert', 'remove', 'add', 'discard',
+             'popitem', 'extend', 'acquire', 'release', 'move_to_end', 'appendleft', 'popleft', 'sort', 'reverse'}
+
+
+def write_lines(co):
+    lines = set()
+    for ins in dis.get_instructions(co):
+        ln = ins.positions.lineno if ins.positions else None
+        if ln is None:
+            continue
+        if ins.opname in ('STORE_SUBSCR', 'DELETE_SUBSCR', 'STORE_GLOBAL', 'DELETE_GLOBAL', 'STORE_ATTR',
+                          'DELETE_ATTR') or \
+                (ins.opname in ('LOAD_ATTR', 'LOAD_METHOD') and ins.argval in _MUTATORS):
+            lines.add(ln)
+    return lines
 
 
 # --------------------------------------------------------------------------- scheduler
